@@ -51,7 +51,7 @@ class ContractMixin:
         seen_post = False
         for s in c.stmts:
             if isinstance(s, ast.Expr) and isinstance(s.value, ast.Call) and isinstance(s.value.func, ast.Name) \
-                    and s.value.func.id in ('ensures', 'raises', 'raises_nothing'):
+                    and s.value.func.id in ('ensures', 'raises', 'raises_nothing', 'modifies'):
                 seen_post = True
             if isinstance(s, ast.Assign):
                 if (phase == 'pre') != (not seen_post):
@@ -119,14 +119,13 @@ class ContractMixin:
         st.DH = z3.Const(f'DH!h{tag}', smt.DHSort)
         st.DV = z3.Const(f'DV!h{tag}', smt.DVSort)
         st.DL = z3.Const(f'DL!h{tag}', smt.DLSort)
-        st.LS = z3.Const(f'LS!h{tag}', smt.LSSort)
+        fLS = z3.Const(f'LS!h{tag}', smt.LSSort)
         a0 = st.A
         st.A = z3.Const(f'A!h{tag}', smt.Int)
         st.assume(st.A >= a0)
         r = z3.Const('r!q', smt.Int)
         tup = self.cls('tuple').id
-        st.assume(z3.ForAll([r], z3.Implies(z3.Select(st.CL, r) == I(tup), z3.Select(st.LS, r) == z3.Select(oldLS, r)),
-                            patterns=[z3.Select(st.LS, r)]))
+        st.LS = z3.Lambda([r], z3.If(z3.Select(st.CL, r) == I(tup), z3.Select(oldLS, r), z3.Select(fLS, r)))
 
     # ------------------------------------------------------------------ call-site use of a contract
     def apply_contract(self, st: St, c: Contract, fi, fv, args: Args, node=None) -> List[Out]:
@@ -176,18 +175,24 @@ class ContractMixin:
                 res = SV(smt.fresh('res', Val))
                 s3.assume(self.older(s3, res.term))
                 e3 = dict(env)
-                e3['result'] = res
+                e3['ret'] = res
+                if 'result' not in loc:
+                    e3['result'] = res
                 rk = c.opts.get('result_class')
                 if rk:
                     ci = self.cls(rk)
                     res = SV(res.term, 'ref', ci)
                     s3.assume(self.isinstance_term(s3, SV(res.term), ci))
-                    e3['result'] = res
+                    e3['ret'] = res
+                    if 'result' not in loc:
+                        e3['result'] = res
                 rkind = c.opts.get('result_kind')
                 if rkind:
                     res = SV(res.term, rkind)
                     s3.assume({'bool': is_bool, 'int': is_int, 'str': is_str, 'none': is_none, 'ref': is_ref}[rkind](res.term))
-                    e3['result'] = res
+                    e3['ret'] = res
+                    if 'result' not in loc:
+                        e3['result'] = res
                 self.run_lets(s3, c, e3, 'post')
                 for call in c.calls('ensures'):
                     label, rest = self._label(call, 'post')
@@ -260,6 +265,23 @@ class ContractMixin:
         ax.append(z3.Select(st.CL, I(self.EMPTY_TUPLE)) == I(self.cls('tuple').id))
         return ax
 
+    def assume_class_invariants(self, st: St, v, env=None):
+        """Class invariants (CONFIG['class_invariants']) are assumed for every object of the class: they are proved as
+        postconditions of the constructors and nobody else writes those fields (A-PRIV)."""
+        invs = self.config.get('class_invariants', {})
+        if not invs or not isinstance(v, SV) or v.kind in ('none', 'bool', 'int', 'str'):
+            return
+        for q, fname in invs.items():
+            ci = self.cls(q)
+            if v.cls is not None and ci not in v.cls.mro and v.cls not in ci.mro:
+                continue
+            guard = self.isinstance_term(st, v, ci)
+            sf = self.contracts.specfuncs[fname]
+            e = {'__target_module__': None}
+            body = self.spec_bool(st, self.call_specfunc(st, sf, [SV(v.term, 'ref', ci if (v.cls is None or v.cls in ci.mro) else v.cls)], e))
+            st.assume(z3.Implies(guard, body))
+            self.assumptions_used.add(f'class invariant {fname} of {ci.name} assumed for objects not created in this unit (proved at {ci.name}.__init__)')
+
     def param_facts(self, st: St, v: SV):
         st.assume(self.older(st, v.term))
         st.assume(z3.Implies(is_ref(v.term), r_of(v.term) >= 1))
@@ -322,6 +344,8 @@ class ContractMixin:
         specenv.update(ghosts)
         env = self.contract_env(c, fi.module, specenv)
         self.const_facts(st)
+        for v in list(loc.values()) + list(envv.values()):
+            self.assume_class_invariants(st, v)
         self.run_lets(st, c, env, 'pre')
         # narrow parameter hints from `requires(isinstance(p, C))` / is_str(...) clauses
         for i, call in enumerate(c.calls('requires')):
@@ -428,7 +452,9 @@ class ContractMixin:
         st = o.st
         if o.kind == 'ok':
             e = dict(env)
-            e['result'] = o.val
+            e['ret'] = o.val
+            if 'result' not in [a_.arg for a_ in fi.node.args.args]:
+                e['result'] = o.val
             self.run_lets(st, c, e, 'post')
             replays = {k.args[0].value: k.args[1].value for k in c.calls('replay')}
             for i, call in enumerate(c.calls('ensures')):
